@@ -280,7 +280,7 @@ func (w *world) runNoClock(r *mrand.Rand, motif int, variant int) {
 
 // runUnixGoGo: stream "unix" — Go client <-> Go ServeAgent over a real unix socket.
 func runUnixGoGo(m *mon.M, pool []*testKey) {
-	total := m.N(32, 1500)
+	total := m.N(32, 400)
 	m.Cases("unix", total, func(i int64, r *mrand.Rand) {
 		dir, err := ext.TempDir("c43unix")
 		if err != nil {
@@ -317,7 +317,7 @@ func runUnixGoGo(m *mon.M, pool []*testKey) {
 // ---- OpenSSH ssh-agent as the peer of the Go client ----
 
 func runOpenSSHAgent(m *mon.M, pool []*testKey) {
-	total := m.N(32, 600)
+	total := m.N(32, 200)
 	var (
 		cmd  *exec.Cmd
 		dir  string
@@ -476,7 +476,7 @@ func fingerprint(blob []byte) string {
 }
 
 func runSSHAdd(m *mon.M, pool []*testKey) {
-	total := m.N(32, 480)
+	total := m.N(32, 200)
 	var plainDir, certDir, askpass, base string
 	setup := func() bool {
 		if base != "" {
